@@ -3,6 +3,7 @@
 (* C07: one event per CCSDS code carrying the REAL matrix (row adjacency). *)
 (*  Ar4ja / C2 {code, M, nrows, ncols, rows, colw, rank, tail_rank, enc,   *)
 (*              girth_checked, four_cycle, cyc6, sha, pin}                 *)
+(*  Ar4jaLite {code, nrows, ncols, colw, sha, pin}   k = 16384, quick tier   *)
 (*  rank / tail_rank : GF(2) ranks from the harness's bit-packed           *)
 (*     elimination (oracle); four_cycle : oracle column-pair test; cyc6 :  *)
 (*     a 6-cycle <<c1,r1,c2,r2,c3,r3>> whose edges TLC verifies in `rows'  *)
@@ -34,6 +35,14 @@ Ar4jaOK(ev) ==
      /\ (c = "R1_2_K1024" => GirthSixOK(ev))                                              \* documented girth 6
      /\ ev.sha = ev.pin
 
+\* quick tier, k = 16384: size, block-column degrees and the pinned digest (the full event is checked in the thorough tier)
+Ar4jaLiteOK(ev) ==
+  /\ ev.o = "ok" /\ ev.code \in Ar4jaNames
+  /\ LET c == ev.code  Mx == MTable[c]  rate == RateOf[c] IN
+     /\ ev.nrows = 3 * Mx /\ ev.ncols = KTable[c] + 3 * Mx
+     /\ \A col \in 0..(ev.ncols - 1) : ev.colw[col + 1] = BlockColDegree(rate, (col \div Mx) + 1)
+     /\ ev.sha = ev.pin
+
 C2EvOK(ev) ==
   /\ ev.o = "ok" /\ ev.nrows = 1022 /\ ev.ncols = 8176
   /\ NoDupRows(ev.rows) /\ C2OK(ev.rows, ev.colw)
@@ -41,7 +50,7 @@ C2EvOK(ev) ==
   /\ GirthSixOK(ev)
   /\ ev.sha = ev.pin
 
-EvOK(ev) == CASE ev.e = "Ar4ja" -> Ar4jaOK(ev) [] ev.e = "C2" -> C2EvOK(ev) [] OTHER -> FALSE
+EvOK(ev) == CASE ev.e = "Ar4ja" -> Ar4jaOK(ev) [] ev.e = "Ar4jaLite" -> Ar4jaLiteOK(ev) [] ev.e = "C2" -> C2EvOK(ev) [] OTHER -> FALSE
 
 Init == l = 1
 Step == /\ l <= NRec
